@@ -32,14 +32,17 @@ def fx(b, h=0):
     if len(b) - i >= 1:
         h = ((rotl5(h) ^ b[i]) * K) & M64
     return h
-# fixed pairs (seed 7), verified at import
-PAIRS_PLAIN = [("u8jzPde0IgxLd6Gn", "H1pJoi2CsyzGtYPZ"), ("ja0UA_vhtJju38E_", "0OVme2Z58BNB80zl"), ("vzXmbUFqx1pUYz80", "vZBoSvwFs1dQ9kM8")]
-PAIRS_LEN_PREFIXED = [("cn3woWzDi8FcMdo8", "SCFWVVcPn2Z44xLw"), ("J2Y6qDSrr1KOFQyj", "OfS3Z7R2TV8UqVod"), ("LnxX48No5bZEfOxA", "ktSxjVgJJmBduSrP")]
-for _x, _y in PAIRS_PLAIN:
-    assert _x != _y and fx(_x.encode()) == fx(_y.encode())
-for _x, _y in PAIRS_LEN_PREFIXED:
-    assert _x != _y and fx(_x.encode(), (16 * K) & M64) == fx(_y.encode(), (16 * K) & M64)
-ALL_PAIRS = PAIRS_PLAIN + PAIRS_LEN_PREFIXED
+# constants produced by the search below (seed 7) plus the pair of seed C18-10's demo; verified at import
+H_SLICE16 = (16 * K) & M64
+PAIRS_STR = [(b"u8jzPde0IgxLd6Gn", b"H1pJoi2CsyzGtYPZ"), (b"ja0UA_vhtJju38E_", b"0OVme2Z58BNB80zl"),
+             (b"vzXmbUFqx1pUYz80", b"vZBoSvwFs1dQ9kM8"), (b"uHead_M_ch622_04", b"uHead_E_th622_0_")]      # write(bytes) / str::hash
+PAIRS_SLICE = [(b"cn3woWzDi8FcMdo8", b"SCFWVVcPn2Z44xLw"), (b"J2Y6qDSrr1KOFQyj", b"OfS3Z7R2TV8UqVod"),
+               (b"LnxX48No5bZEfOxA", b"ktSxjVgJJmBduSrP")]                                                # [u8]::hash, length prefix 16
+for (_x, _y) in PAIRS_STR:
+    assert _x != _y and len(_x) == len(_y) == 16 and fx(_x) == fx(_y) and fx(_x + b"_cl0n\xff") == fx(_y + b"_cl0n\xff")
+for (_x, _y) in PAIRS_SLICE:
+    assert _x != _y and len(_x) == len(_y) == 16 and fx(_x, H_SLICE16) == fx(_y, H_SLICE16)
+ALL_PAIRS = PAIRS_STR + PAIRS_SLICE
 
 if __name__ == "__main__":
     rng = random.Random(7)
